@@ -787,6 +787,45 @@ def c09_unechoed_case(tid, k, j, side="A"):
     return run, bool(drained), drained, ok
 
 
+def long_outage_case(tid, k, who="A", both=False):
+    """Both sides verified and talking; `who` loses its connection and the server stays unreachable for k connection
+    attempts in a row (each refused) - minutes, with ClientService's back-off - while both applications keep sending;
+    then the server is back.  Nothing may be lost or repeated, however long the outage was: the k-th failed attempt is
+    followed by a (k+1)-th."""
+    other = "B" if who == "A" else "A"
+    run = RealRun(tid, "long-outage")
+    w = run.world
+    for c in ("A", "B"):
+        run.apply({"a": "ConnOpen", "c": c})
+        run.apply({"a": "AppSetCode", "c": c, "code": "4-alpha-beta"})
+    run.apply({"a": "AppSend", "c": who, "data": ("m:%s:0" % who).encode().hex()})
+    run.drain()
+    victims = [who, other] if both else [who]
+    ok = True
+    for vname in victims:
+        conn = w.live_conn(w.clients[vname])
+        ok = ok and conn is not None
+        if conn is not None:
+            run.apply({"a": "Drop", "k": conn.id})
+    run.apply({"a": "AppSend", "c": who, "data": ("m:%s:1" % who).encode().hex()})
+    run.apply({"a": "AppSend", "c": other, "data": ("m:%s:0" % other).encode().hex()})
+    failed = 0
+    for i in range(k):
+        for vname in victims:
+            acts = {a["a"] for a in w.enabled() if a.get("c") == vname}
+            if "Retry" in acts:
+                run.apply({"a": "Retry", "c": vname})
+                acts = {a["a"] for a in w.enabled() if a.get("c") == vname}
+            if "ConnFail" in acts:
+                run.apply({"a": "ConnFail", "c": vname})
+                failed += 1
+    run.apply({"a": "AppSend", "c": who, "data": ("m:%s:2" % who).encode().hex()})
+    drained = run.drain()
+    run.apply({"a": "AppSend", "c": other, "data": ("m:%s:1" % other).encode().hex()})
+    drained = run.drain() and drained
+    return run, True, drained, ok and failed >= k
+
+
 def srvclose_case(tid, during, after, who="A"):
     """Both sides verified; the server closes `who`'s connection gracefully (WebSocket closing handshake); the
     application sends `during` messages while the websocket is CLOSING and `after` more once TCP is gone; then the
@@ -1878,6 +1917,24 @@ def run_pipeline(prop, tier, v, quick):
                         records.append(run_.finish(drained, goal=goal))
             cov["srvclose_family_cases"] = n
             cov["srvclose_family_as_intended"] = nok
+        if prop in ("C09", "C03", "C08"):
+            # family: outages of many failed connection attempts in a row (the environment decides when the server is back)
+            n = nok = 0
+            for who, k_, both in ((("A", 3, False), ("B", 9, False), ("A", 14, True)) if quick else
+                                  [(w_, kk, b_) for w_ in ("A", "B") for kk in (1, 5, 8, 9, 12, 20, 33) for b_ in (False, True)]):
+                tid += 1
+                n += 1
+                try:
+                    run_, goal, drained, ok = long_outage_case(tid, k_, who, both)
+                except Exception as e:
+                    cov.setdefault("family_errors", []).append(repr(e)[:120])
+                    continue
+                nok += bool(ok)
+                runs[tid] = run_
+                # (the server is reachable again and nobody closed: everything is due, wherever the wormholes ended up)
+                records.append(run_.finish(drained, goal=True))
+            cov["long_outage_cases"] = n
+            cov["long_outage_as_intended"] = nok
         if prop in ("C18", "C09", "C03"):
             n = nok = 0
             for side in ("A", "B"):
